@@ -50,6 +50,9 @@ def stepC37 : List String → String
               | .val (.error _) => "cannot-sign " ++ toString code.length
               | .panic => "panic"))
       | _, _ => "bad-op"
+  | ["wks", priv, _lock] => match hexBytes? priv with
+      | some k => if k.length ≤ 32 then toHex (storeKey false k) ++ " ok" else "bad-op"
+      | none => "bad-op"
   | "wrun" :: ts => Driver.RunOp.evalRun .all ts
   | "wtamper" :: ts => Driver.RunOp.evalRun .all ts
   | _ => "bad-op"
